@@ -656,9 +656,55 @@ class PteraTransformer(NodeTransformer):
         else:  # pragma: no cover
             raise NotImplementedError(target)
 
+    def _visit_header(self, node):
+        """Visit what a nested def, lambda or class makes this function evaluate.
+
+        The body of the nested function or class is another scope, but its
+        decorators, default values and base classes are expressions of the
+        function being transformed.
+        """
+        if hasattr(node, "decorator_list"):
+            node.decorator_list = [self.visit(x) for x in node.decorator_list]
+        if hasattr(node, "bases"):
+            node.bases = [self.visit(x) for x in node.bases]
+            for kw in node.keywords:
+                kw.value = self.visit(kw.value)
+        args = getattr(node, "args", None)
+        if isinstance(args, ast.arguments):
+            args.defaults = [self.visit(x) for x in args.defaults]
+            args.kw_defaults = [
+                x and self.visit(x) for x in args.kw_defaults
+            ]
+        return node
+
+    def _visit_target(self, target):
+        """Visit the expressions evaluated inside an assignment target.
+
+        The object of an attribute and the object and index of a subscript
+        may contain assignment expressions and yields.
+        """
+        if getattr(target, "_ptera_visited", False):
+            # (tuple targets and chains are taken apart and seen again)
+            return target
+        if isinstance(target, (ast.Tuple, ast.List)):
+            target.elts = [self._visit_target(elt) for elt in target.elts]
+        elif isinstance(target, ast.Starred):
+            target.value = self._visit_target(target.value)
+        elif isinstance(target, ast.Attribute):
+            target.value = self.visit(target.value)
+        elif isinstance(target, ast.Subscript):
+            target.value = self.visit(target.value)
+            target.slice = self.visit(target.slice)
+        target._ptera_visited = True
+        return target
+
+    def visit_Lambda(self, node):
+        # The body of a lambda is a scope of its own
+        return self._visit_header(node)
+
     def visit_FunctionDef(self, node, root=False):
         if not root:
-            return node
+            return self._visit_header(node)
 
         new_body = []
 
@@ -772,11 +818,11 @@ class PteraTransformer(NodeTransformer):
     def visit_ClassDef(self, node):
         # The body of a nested class is its own scope: leave it alone (names
         # generated by ptera would also be mangled inside it).
-        return node
+        return self._visit_header(node)
 
     def visit_AsyncFunctionDef(self, node):
         # Like a nested def: its body is not part of this function
-        return node
+        return self._visit_header(node)
 
     def visit_For(self, node):
         new_body = self.generate_interactions(node.target)
@@ -814,6 +860,7 @@ class PteraTransformer(NodeTransformer):
         (item,) = node.items
         new_body = []
         if item.optional_vars is not None:
+            item.optional_vars = self._visit_target(item.optional_vars)
             new_body.extend(self.generate_interactions(item.optional_vars))
         new_body.extend(self.visit_body(node.body))
         return ast.copy_location(
@@ -876,6 +923,7 @@ class PteraTransformer(NodeTransformer):
         if node.value is None and not isinstance(node.target, ast.Name):
             # ``obj.attr: T`` assigns nothing in Python
             return node
+        node.target = self._visit_target(node.target)
         return self.make_interaction(
             node.target,
             self._ann(node.annotation),
@@ -917,8 +965,10 @@ class PteraTransformer(NodeTransformer):
                 )
             return accum
 
-        # Assignment expressions and yields in the value are interactions too
+        # Assignment expressions and yields in the value are interactions too,
+        # and so are those inside the targets
         node.value = self.visit(node.value)
+        node.targets = [self._visit_target(tgt) for tgt in node.targets]
 
         targets = node.targets
         if len(targets) > 1:
